@@ -24,7 +24,7 @@ def build(v, O, dens_value, dens_unit, vol_value, vol_unit):
     if v.mode == 'mass': kw['mass_density'] = Quantity(dens_value, dens_unit)
     else: kw['number_density'] = Quantity(dens_value, dens_unit)
     if vol_unit: kw['volume'] = Quantity(vol_value, vol_unit)
-    if v.kind == 'element': return Element(v.spec, natural=v.natural, **kw)
+    if v.kind == 'element': return Element(v.spec.split('*')[0], proportion=int(v.spec.split('*')[1]) if '*' in v.spec else 1, natural=v.natural, **kw)
     if v.kind == 'substance': return Substance(v.spec, natural=v.natural, **kw)
     if v.kind == 'subdict': return Substance({s: n for s, n in zip(v.spec, (v.n1, v.n2, v.n3))}, natural=v.natural, **kw)
     return Material({s: n for s, n in zip(v.spec, (v.n1, v.n2, v.n3))}, natural=v.natural, norm_type=NORMS[v.norm], **kw)
@@ -73,7 +73,7 @@ def run(v, O):
         out.append((f'rho[{k}] = amount * m * n', O.close(dm[k].rho, props[k] * cm[k] * n)))
     if hasattr(obj, 'components'):
         out.append(('sum of component mass densities = rho', O.close(dm['sum'].rho, rho)))
-        out.append(('rows rho add up to rho', O.close(sum(dm[k].rho for k in names), rho)))
+    out.append(('rows rho add up to rho', O.close(sum(dm[k].rho for k in names), rho)))
     if v.w1:
         Vcm3 = v.V * g1 / ref_units('cm3')[0]
         mass = obj.mass.value('g')
@@ -83,6 +83,7 @@ def run(v, O):
             out.append((f'M[{k}] = rho_i * V', O.close(dm[k].M, dm[k].rho * Vcm3)))
         if hasattr(obj, 'components'):
             out.append(('sum of component masses = mass', O.close(dm['sum'].M, mass)))
+        out.append(('rows M add up to the total mass', O.close(sum(dm[k].M for k in names), mass)))
     # same physical input in other units
     obj2 = build(v, O, v.d * f1 / f2, v.u2, v.V * g1 / g2, v.w2)
     out.append(('unit independence: rho', O.close(obj2.mass_density.value('g/cm3'), rho)))
@@ -105,7 +106,7 @@ VOL_UNITS = [('l', 'cm3'), ('cm3', 'm3'), ('m3', 'l'), ('ml', 'gal')]
 def scenarios(tier, seed):
     rnd = random.Random(seed)
     S = []
-    objs = [('element', 'B', None), ('element', 'O{17-2}', None), ('substance', 'H2O', None), ('substance', 'Ca(OH)2', None),
+    objs = [('element', 'B', None), ('element', 'O{17-2}', None), ('element', 'O*2', None), ('element', 'Fe{56}*3', None), ('substance', 'H2O', None), ('substance', 'Ca(OH)2', None),
             ('subdict', ['H', 'O'], None), ('material', ['H2O', 'CO2'], 'NUMBER_FRACTION'), ('material', ['N2', 'O2', 'Ar'], 'NUMBER'),
             ('material', ['H2O', 'NaCl'], 'MASS_FRACTION'), ('material', ['Fe2O3'], 'NUMBER_FRACTION')]
     if tier != 'quick':
